@@ -360,6 +360,9 @@ class P:
         a = []
         while self.peek() != ')':
             a.append(self.expr())
+            if self.peek() == '..':
+                self.eat()
+                a[-1] = ('range', a[-1], None if self.peek() in (',', ')') else self.expr())
             if self.peek() == ',':
                 self.eat()
         self.eat(')')
@@ -420,11 +423,24 @@ class P:
         if k == 'op' and v in ('||', '|'):
             # closure: parsed, never translated
             self.eat()
+            names = []
             if v == '|':
-                while self.peek() != '|':
-                    self.eat()
+                depth = 0
+                skip_ty = False
+                while not (self.peek() == '|' and depth == 0):
+                    x = self.eat()
+                    if x in '([<':
+                        depth += 1
+                    elif x in ')]>':
+                        depth -= 1
+                    elif x == ':' and depth == 0:
+                        skip_ty = True
+                    elif x == ',' and depth == 0:
+                        skip_ty = False
+                    elif not skip_ty and re.match(r'^[A-Za-z_]\w*$', x) and x != 'mut':
+                        names.append(x)
                 self.eat('|')
-            return ('closure', self.expr())
+            return ('closure', names, self.expr())
         if v == '(':
             self.eat()
             es = []
@@ -456,6 +472,9 @@ class P:
                     self.eat()
             self.eat(']')
             return ('array', es)
+        if v == 'unsafe' and self.peek(1) == '{':
+            self.eat()
+            return self.block()
         if v == 'if':
             return self.ifexpr()
         if v == 'match':
@@ -561,6 +580,10 @@ class P:
         final = None
         while self.peek() != '}':
             v = self.peek()
+            if v == '#' and self.peek(1) == '[':
+                self.eat()
+                self.i = match_close(self.t, self.i) + 1         # attribute on a statement
+                continue
             if v == 'let':
                 self.eat()
                 p = self.pat()
@@ -589,7 +612,7 @@ class P:
                 continue
             if v == 'return':
                 self.eat()
-                e = self.expr()
+                e = None if self.peek() in (';', '}') else self.expr()
                 if self.peek() == ';':
                     self.eat()
                 final = ('return', e)
@@ -659,6 +682,14 @@ class P:
 def parse_fn(item):
     p = P(item.toks)
     name, params, ret = parse_sig(p)
+    if p.peek() == 'where':
+        d = 0
+        while not (p.peek() == '{' and d == 0):
+            x = p.eat()
+            if x in '(<':
+                d += 1
+            elif x in ')>':
+                d -= 1
     body = p.block()
     return name, params, ret, body
 
@@ -900,6 +931,8 @@ class FnEmitter:
             return ty[4:]
         if isinstance(ty, str) and ty.startswith('list:'):
             return 'List ' + paren(self.lty(ty[5:]))
+        if ty == 'F' and self.generic_f:
+            return 'F'
         if ty == 'F':
             return 'F' if self.generic_f else 'Nat'
         if is_signed(ty):
@@ -944,7 +977,7 @@ class FnEmitter:
                 return 'u8'         # a fieldless enum is its discriminant (`as u8` / `as u32` are the identity)
             if t in self.mod.structs:
                 return ('agg', [self.norm_ty(ft) for (_fn, ft) in self.mod.struct_fields(t)])
-            if t in ('Self', self.mod.ftype, 'BaseElement', 'Self::BaseField', 'B'):
+            if t in ('Self', self.mod.ftype, 'BaseElement', 'Self::BaseField', 'B') or t in self.mod.ftypes:
                 return 'F'
             if t in INT_TYPES or t == 'bool':
                 return t
@@ -961,7 +994,7 @@ class FnEmitter:
             if isinstance(et, str) and et in self.mod.objtypes:
                 return 'list:obj:' + et
             e = self.norm_ty(et)
-            if not (isinstance(e, str) and e in INT_TYPES):
+            if not (isinstance(e, str) and (e in INT_TYPES or (e == 'F' and self.generic_f))):
                 raise TranslateError('vector of %r' % (et,))
             return 'list:' + e
         if t[0] == 'array':
@@ -1012,7 +1045,7 @@ class FnEmitter:
                 if name == 'BITS':
                     return self.lit(w, 'u32')
                 return self.lit((1 << w) - 1 if name == 'MAX' else 0, segs[0])
-            if name in ('ZERO', 'ONE') and segs[0] in ('Self', self.mod.ftype, 'BaseElement'):
+            if name in ('ZERO', 'ONE') and (segs[0] in ('Self', self.mod.ftype, 'BaseElement') or segs[0] in self.mod.ftypes):
                 return self.f_new(self.lit(0 if name == 'ZERO' else 1, 'u64'))
             if isinstance(name, str) and name in self.mod.consts:
                 v = self.mod.consts[name]
@@ -1069,6 +1102,38 @@ class FnEmitter:
                 if b.ty == 'F' and e[2] == 0:
                     return SV(b.e, self.mod.rawty, b.fv)
             raise TranslateError('field %r' % (e[2],))
+        if k == 'range' or k == 'rangeincl':
+            lo = self.ev(e[1], env, 'usize')
+            hi = self.ev(e[2], env, lo.ty)
+            if lo.agg or hi.agg or lo.ty != hi.ty or not is_unsigned(lo.ty):
+                raise TranslateError('range of %r .. %r' % (lo.ty, hi.ty))
+            cnt = '%s - %s' % (paren(hi.e), paren(lo.e)) if k == 'range' else '%s + 1 - %s' % (paren(hi.e), paren(lo.e))
+            return SV("List.range' %s (%s)" % (paren(lo.e), cnt), 'list:' + lo.ty, lo.fv | hi.fv)
+        if k == 'index' and not (e[1][0] == 'path' and len(e[1][1]) == 1 and e[1][1][0] in env
+                                 and not isinstance(env[e[1][1][0]], tuple) and env[e[1][1][0]].agg):
+            b = self.ev(e[1], env)
+            if not b.agg and isinstance(b.ty, str) and b.ty.startswith('list:'):
+                et = b.ty[5:]
+                if e[2][0] == 'rangeidx':
+                    lo = self.ev(e[2][1], env, 'usize') if e[2][1] is not None else None
+                    hi = self.ev(e[2][2], env, 'usize') if e[2][2] is not None else None
+                    ex, fv = b.e, set(b.fv)
+                    if hi is not None:
+                        self.ok('%s ≤ List.length %s' % (paren(hi.e), paren(b.e)), b.fv | hi.fv)
+                        ex, fv = 'List.take %s %s' % (paren(hi.e), paren(ex)), fv | hi.fv
+                    if lo is not None:
+                        self.ok('%s ≤ %s' % (paren(lo.e), paren(hi.e) if hi is not None else 'List.length ' + paren(b.e)),
+                                b.fv | lo.fv | (hi.fv if hi is not None else frozenset()))
+                        ex, fv = 'List.drop %s %s' % (paren(lo.e), paren(ex)), fv | lo.fv
+                    return SV(ex, b.ty, fv)
+                ix = self.ev(e[2], env, 'usize')
+                if ix.agg or ix.ty != 'usize':
+                    raise TranslateError('index of type %r' % (ix.ty,))
+                d = self.elem_default(et)
+                fv = b.fv | ix.fv | d.fv
+                self.ok('%s < List.length %s' % (paren(ix.e), paren(b.e)), b.fv | ix.fv)
+                return SV('List.getD %s %s %s' % (paren(b.e), paren(ix.e), paren(d.e)), et, fv)
+            raise TranslateError('index of a value of type %r' % (b.ty,))
         if k == 'index':
             b = self.ev(e[1], env)
             ix = const_eval_env(e[2], env, self.mod.consts)
@@ -1193,8 +1258,11 @@ class FnEmitter:
         fv = x.fv | y.fv
         if op in CMP:
             if x.ty == 'F':
-                if op == '==':
+                if op == '==' and not (self.generic_f and self.mod.generic_ok):
                     return self.f_op('eq', [x, y], 'bool')
+                if op in ('==', '!=') and self.generic_f and y.ty == 'F':
+                    e_ = 'O.beq %s %s = true' % (paren(x.e), paren(y.e))
+                    return SV(e_ if op == '==' else '¬ (%s)' % e_, 'bool', fv | {'O'})
                 raise TranslateError('ordering on field elements')
             if x.ty != y.ty:
                 raise TranslateError('comparison of %s and %s' % (x.ty, y.ty))
@@ -1275,8 +1343,22 @@ class FnEmitter:
                 return SV('List.length %s' % paren(x.e), 'usize', x.fv)
             if name == 'is_empty' and not args:
                 return SV('List.isEmpty %s = true' % paren(x.e), 'bool', x.fv)
-            if name == 'to_vec' and not args:
+            if name in ('to_vec', 'clone', 'cloned', 'copied') and not args:
                 return x
+            if name == 'fold' and len(args) == 2 and args[1][0] == 'closure' and len(args[1][1]) == 2:
+                init = self.ev(args[0], env, want)
+                if init.agg:
+                    raise TranslateError('fold with an aggregate accumulator')
+                an, xn = args[1][1]
+                env2 = dict(env)
+                env2[an] = SV(an + '_', init.ty, [])
+                env2[xn] = SV(xn + '_', x.ty[5:], [])
+                n_ok, n_st = len(self.oks), len(self.steps)
+                body = self.ev(args[1][2], env2, init.ty)
+                if len(self.oks) != n_ok or len(self.steps) != n_st or body.agg or body.ty != init.ty:
+                    raise TranslateError('fold closure with side conditions, lets or another type')
+                return SV('List.foldl (fun %s_ %s_ => %s) %s %s' % (an, xn, body.e, paren(init.e), paren(x.e)),
+                          init.ty, x.fv | init.fv | body.fv)
             if name == 'rev' and not args:
                 return SV('List.reverse %s' % paren(x.e), x.ty, x.fv)
             if name == 'contains' and len(args) == 1 and x.ty[5:] in INT_TYPES:
@@ -1295,6 +1377,11 @@ class FnEmitter:
                 return self.f_op(name, [x])
             if name in ('clone', 'conjugate'):
                 return x
+            if name == 'inv' and not args and self.generic_f and self.mod.generic_ok:
+                return SV('O.inv %s' % paren(x.e), 'F', x.fv | {'O'})
+            if name == 'mul_base' and len(args) == 1 and self.generic_f and self.mod.generic_ok:
+                y = self.ev(args[0], env, 'F')
+                return self.f_op('mul', [x, y])
             raise TranslateError('field method %s' % name)
         if name == 'clone':
             return x
@@ -1380,6 +1467,39 @@ class FnEmitter:
         if name == 'from' and segs[0] in ('Self', self.mod.ftype, 'BaseElement'):
             x = self.ev(args[0], env, None)
             return self.f_new(self.cast(x, self.mod.rawty))
+        if segs == ['vec!'] and len(args) == 1 and args[0][0] == 'repeat':
+            et = want[5:] if isinstance(want, str) and want.startswith('list:') else None
+            x = self.ev(args[0][1], env, et)
+            n = self.ev(args[0][2], env, 'usize')
+            if x.agg or n.agg or n.ty != 'usize' or not (x.ty in INT_TYPES or x.ty == 'F'):
+                raise TranslateError('vec![%r; %r]' % (x.ty, n.ty))
+            return SV('List.replicate %s %s' % (paren(n.e), paren(x.e)), 'list:' + x.ty, x.fv | n.fv)
+        if segs == ['vec!'] and len(args) == 1 and args[0][0] == 'array':
+            et = want[5:] if isinstance(want, str) and want.startswith('list:') else None
+            xs = [self.ev(a, env, et) for a in args[0][1]]
+            if not xs:
+                if et is None:
+                    raise TranslateError('vec![] without a known element type')
+                return SV('([] : %s)' % self.lty(want), want)
+            if any(x.agg or x.ty != xs[0].ty for x in xs):
+                raise TranslateError('vec![..] of mixed types')
+            fv = frozenset().union(*[x.fv for x in xs])
+            return SV('[' + ', '.join(x.e for x in xs) + ']', 'list:' + xs[0].ty, fv)
+        if name == 'from' and len(segs) == 2 and segs[0] in self.mod.ftypes and len(args) == 1:
+            x = self.ev(args[0], env, 'F')
+            if x.ty == 'F':
+                return x                # embedding of the base field into the field the function works in
+        if name == 'uninit_vector' and len(args) == 1:
+            # uninitialised memory that the caller overwrites completely: modelled as zeros
+            if not (isinstance(want, str) and want.startswith('list:')):
+                raise TranslateError('uninit_vector() without a known element type (add a hint)')
+            n = self.ev(args[0], env, 'usize')
+            d = self.elem_default(want[5:])
+            return SV('List.replicate %s %s' % (paren(n.e), paren(d.e)), want, n.fv | d.fv)
+        if segs == ['Vec', 'with_capacity'] and len(args) == 1:
+            if not (isinstance(want, str) and want.startswith('list:')):
+                raise TranslateError('Vec::with_capacity() without a known element type (add a hint)')
+            return SV('([] : %s)' % self.lty(want), want)
         if segs == ['Vec', 'new'] and not args:
             if not (isinstance(want, str) and want.startswith('list:')):
                 raise TranslateError('Vec::new() without a known element type (add a hint)')
@@ -1416,6 +1536,9 @@ class FnEmitter:
             fl(sv)
         fv = frozenset().union(*[x.fv for x in flat]) if flat else frozenset()
         argstr = ' '.join(paren(x.e if x.ty != 'bool' else 'decide (%s)' % x.e) for x in flat)
+        if self.generic_f and self.mod.generic_ok:
+            argstr = 'O ' + argstr
+            fv = fv | {'O'}
         self.ok('%s_ok %s = true' % (lname, argstr), fv)
         callexpr = '%s %s' % (lname, argstr)
         return self.unpack(callexpr, rty, fv)
@@ -1566,6 +1689,18 @@ class FnEmitter:
                 raise TranslateError('assignment to unknown %s' % n)
             env[n] = self.bind(n, sv)
             return
+        if lhs[0] == 'index' and lhs[1][0] == 'path' and len(lhs[1][1]) == 1 and lhs[1][1][0] in env \
+                and not isinstance(env[lhs[1][1][0]], tuple) and not env[lhs[1][1][0]].agg \
+                and isinstance(env[lhs[1][1][0]].ty, str) and env[lhs[1][1][0]].ty.startswith('list:'):
+            n = lhs[1][1][0]
+            cur = env[n]
+            ix = self.ev(lhs[2], env, 'usize')
+            if ix.agg or ix.ty != 'usize' or sv.agg or sv.ty != cur.ty[5:]:
+                raise TranslateError('element assignment %r [%r] = %r' % (cur.ty, ix.ty, sv.ty))
+            self.ok('%s < List.length %s' % (paren(ix.e), paren(cur.e)), cur.fv | ix.fv)
+            env[n] = self.bind(n, SV('List.set %s %s %s' % (paren(cur.e), paren(ix.e), paren(sv.e)), cur.ty,
+                                     cur.fv | ix.fv | sv.fv))
+            return
         if lhs[0] == 'index':
             base = lhs[1]
             ix = const_eval_env(lhs[2], env, self.mod.consts)
@@ -1598,11 +1733,17 @@ class FnEmitter:
                 cv = self.ev(c, env, 'bool')
                 cvb = self.bind('c', cv)
                 self.guards.append((cvb.e, cvb.fv))
-                a = self.block(th, dict(env), want)
+                env_t = dict(env)
+                a = self.block(th, env_t, want)
                 self.guards.pop()
                 self.guards.append(('¬ %s' % paren(cvb.e), cvb.fv))
                 b = self.block(('block', stmts[si + 1:], final), env, want)
                 self.guards.pop()
+                for n in getattr(self, 'outnames', []):
+                    if n in env and n in env_t and env_t[n] is not env[n]:
+                        env[n] = self.bind(n, self.merge_env(cvb, env_t[n], env[n], env[n]))
+                if a.agg and b.agg and not a.items and not b.items:
+                    return a
                 return self.merge(cvb, a, b)
             if k == 'let':
                 _, pat, ty, ex = st
@@ -1628,6 +1769,42 @@ class FnEmitter:
                 ex = st[1]
                 if ex[0] == 'if':
                     self.ifstmt(ex, env)
+                elif ex[0] == 'method' and ex[2] == 'copy_within' and len(ex[3]) == 2 and ex[3][0][0] == 'range' \
+                        and ex[3][0][2] is None and ex[3][1] == ('int', 0, None) and ex[1][0] == 'path' \
+                        and len(ex[1][1]) == 1 and ex[1][1][0] in env:
+                    # v.copy_within(lo.., 0): the tail moves to the front, the last `lo` elements stay
+                    n = ex[1][1][0]
+                    cur = env[n]
+                    lo = self.ev(ex[3][0][1], env, 'usize')
+                    self.ok('%s ≤ List.length %s' % (paren(lo.e), paren(cur.e)), cur.fv | lo.fv)
+                    env[n] = self.bind(n, SV('List.drop %s %s ++ List.drop (List.length %s - %s) %s' % (
+                        paren(lo.e), paren(cur.e), paren(cur.e), paren(lo.e), paren(cur.e)), cur.ty, cur.fv | lo.fv))
+                elif ex[0] == 'method' and ex[2] == 'fill' and len(ex[3]) == 1 and ex[1][0] == 'index' \
+                        and ex[1][2][0] == 'rangeidx' and ex[1][2][2] is None and ex[1][1][0] == 'path' \
+                        and len(ex[1][1][1]) == 1 and ex[1][1][1][0] in env:
+                    # v[lo..].fill(x)
+                    n = ex[1][1][1][0]
+                    cur = env[n]
+                    lo = self.ev(ex[1][2][1], env, 'usize')
+                    xv = self.ev(ex[3][0], env, cur.ty[5:])
+                    self.ok('%s ≤ List.length %s' % (paren(lo.e), paren(cur.e)), cur.fv | lo.fv)
+                    env[n] = self.bind(n, SV('List.take %s %s ++ List.replicate (List.length %s - %s) %s' % (
+                        paren(lo.e), paren(cur.e), paren(cur.e), paren(lo.e), paren(xv.e)), cur.ty,
+                        cur.fv | lo.fv | xv.fv))
+                elif ex[0] == 'call' and isinstance(ex[1][-1], str) and self.mod.outs.get(ex[1][-1]):
+                    # f(&mut v, ..);   a translated function with out-parameters: its result is the new v
+                    outs = self.mod.outs[ex[1][-1]]
+                    tgt = [ex[2][i] for i in outs]
+                    if not all(a[0] == 'path' and len(a[1]) == 1 and a[1][0] in env for a in tgt):
+                        raise TranslateError('out-argument of %s is not a variable' % ex[1][-1])
+                    r = self.ev(ex, env, None)
+                    rs = r.items if (r.agg and len(tgt) > 1) else [r]
+                    for a, v_ in zip(tgt, rs):
+                        env[a[1][0]] = self.bind(a[1][0], v_)
+                elif ex[0] == 'call' and len(ex[1]) >= 2 and ex[1][-2:] == ['mem', 'swap'] and len(ex[2]) == 2 \
+                        and all(a[0] == 'path' and len(a[1]) == 1 and a[1][0] in env for a in ex[2]):
+                    a_, b_ = ex[2][0][1][0], ex[2][1][1][0]
+                    env[a_], env[b_] = self.bind(a_, env[b_]), self.bind(b_, env[a_])
                 elif ex[0] == 'iflet':
                     # if let Some(x) = opt { .. }   with opt = (is_some, value)
                     _, pt, sc, th, el = ex
@@ -1654,7 +1831,8 @@ class FnEmitter:
                     # v.push(x)  ==  v = v ++ [x]
                     n = ex[1][1][0]
                     cur = env[n]
-                    if cur.agg or not (isinstance(cur.ty, str) and cur.ty.startswith('list:') and cur.ty[5:] in INT_TYPES):
+                    if cur.agg or not (isinstance(cur.ty, str) and cur.ty.startswith('list:')
+                                       and (cur.ty[5:] in INT_TYPES or cur.ty[5:] == 'F')):
                         raise TranslateError('push on a value of type %r' % (cur.ty,))
                     y = self.ev(ex[3][0], env, cur.ty[5:])
                     if y.agg or y.ty != cur.ty[5:]:
@@ -1670,10 +1848,15 @@ class FnEmitter:
             elif k == 'for':
                 _, pat, rng, body = st
                 if rng[0] != 'range':
+                    im = self.itermut_of(rng, env)
+                    self.forlist(pat, rng, body, env, im)
+                    continue
+                try:
+                    lo = const_eval_env(rng[1], env, self.mod.consts)
+                    hi = const_eval_env(rng[2], env, self.mod.consts)
+                except TranslateError:
                     self.forlist(pat, rng, body, env)
                     continue
-                lo = const_eval_env(rng[1], env, self.mod.consts)
-                hi = const_eval_env(rng[2], env, self.mod.consts)
                 for i in range(lo, hi):
                     env2 = env
                     if pat[0] == 'pvar':
@@ -1690,6 +1873,8 @@ class FnEmitter:
             self.ifstmt(final, env)
             return SV(items=[])
         if final[0] == 'return':
+            if final[1] is None:
+                return SV(items=[])
             return self.ev(final[1], env, want)
         return self.ev(final, env, want)
 
@@ -1736,6 +1921,24 @@ class FnEmitter:
                     and len(st[1][1][1]) == 1:
                 if st[1][1][1][0] not in acc:
                     acc.append(st[1][1][1][0])
+            elif st[0] == 'expr' and st[1][0] == 'method' and st[1][2] == 'copy_within' and st[1][1][0] == 'path' \
+                    and len(st[1][1][1]) == 1:
+                if st[1][1][1][0] not in acc:
+                    acc.append(st[1][1][1][0])
+            elif st[0] == 'expr' and st[1][0] == 'method' and st[1][2] == 'fill' and st[1][1][0] == 'index' \
+                    and st[1][1][1][0] == 'path' and len(st[1][1][1][1]) == 1:
+                if st[1][1][1][1][0] not in acc:
+                    acc.append(st[1][1][1][1][0])
+            elif st[0] == 'expr' and st[1][0] == 'call' and isinstance(st[1][1][-1], str) \
+                    and self.mod.outs.get(st[1][1][-1]):
+                for i in self.mod.outs[st[1][1][-1]]:
+                    a = st[1][2][i]
+                    if a[0] == 'path' and len(a[1]) == 1 and a[1][0] not in acc:
+                        acc.append(a[1][0])
+            elif st[0] == 'expr' and st[1][0] == 'call' and st[1][1][-2:] == ['mem', 'swap']:
+                for a in st[1][2]:
+                    if a[0] == 'path' and len(a[1]) == 1 and a[1][0] not in acc:
+                        acc.append(a[1][0])
             elif st[0] in ('while',):
                 self.assigned_names(st[2], acc)
             elif st[0] == 'for':
@@ -1796,6 +1999,13 @@ class FnEmitter:
             used |= set(fv)
         return used
 
+    def elem_default(self, et):
+        if et == 'F':
+            return self.f_new(self.lit(0, 'u64'))
+        if et in INT_TYPES:
+            return SV('0', et)
+        raise TranslateError('no default element of type %r' % (et,))
+
     def objsig_of(self, T, m):
         em = self
         while em is not None:
@@ -1809,30 +2019,83 @@ class FnEmitter:
         vs = [T for T in sorted(self.mod.objtypes) if any(re.search(r'\b%s\b' % re.escape(T), x) for x in ltys)]
         return ''.join('{%s : Type} ' % T for T in vs)
 
-    def forlist(self, pat, rng, body, env):
+    def itermut_of(self, rng, env):
+        """(vector variable, reversed?, zipped expression or None) for `v.iter_mut()[.rev()][.zip(w.iter())]`."""
+        rev, zp, e = False, None, rng
+        if e[0] == 'method' and e[2] == 'zip' and len(e[3]) == 1:
+            zp, e = e[3][0], e[1]
+        if e[0] == 'method' and e[2] == 'rev' and not e[3]:
+            rev, e = True, e[1]
+        if e[0] == 'method' and e[2] == 'iter_mut' and not e[3] and e[1][0] == 'path' and len(e[1][1]) == 1 \
+                and e[1][1][0] in env:
+            if rev and zp is not None:
+                raise TranslateError('iter_mut().rev().zip(..)')
+            return (e[1][1][0], rev, zp)
+        return None
+
+    def forlist(self, pat, rng, body, env, itermut=None):
         """`for x in <vector>` as structural recursion over the list: `f.forK` (state after the loop) and
         `f.forK_ok` (no panic on any iteration), with the body as `f.forK_body` / `f.forK_body_ok`."""
-        if self.generic_f:
+        if self.generic_f and not self.mod.generic_ok:
             raise TranslateError('loop in a field-generic function')
-        xs = self.ev(rng, env)
-        if xs.agg or not (isinstance(xs.ty, str) and xs.ty.startswith('list:')):
-            raise TranslateError('for over a value of type %r' % (xs.ty,))
-        et = xs.ty[5:]
-        if pat[0] != 'pvar':
-            raise TranslateError('pattern in a for over a vector')
+        accname = None
+        zipped = False
+        if itermut is not None:
+            # for x in v.iter_mut()..: the elements are rebuilt into `acc`, which replaces `v` after the loop
+            vname, rev, zp = itermut
+            V = env[vname]
+            if V.agg or not (isinstance(V.ty, str) and V.ty.startswith('list:')):
+                raise TranslateError('iter_mut of a value of type %r' % (V.ty,))
+            base, fvx, et = V.e, set(V.fv), V.ty[5:]
+            if zp is not None:
+                W = self.ev(zp, env)
+                if W.agg or not (isinstance(W.ty, str) and W.ty.startswith('list:')):
+                    raise TranslateError('zip with a value of type %r' % (W.ty,))
+                base, fvx = 'List.zip %s %s' % (paren(V.e), paren(W.e)), fvx | set(W.fv)
+                zipped = (V.ty[5:], W.ty[5:])
+                et = 'fn:(%s × %s)' % (self.lty(V.ty[5:]), self.lty(W.ty[5:]))
+            if rev:
+                base = 'List.reverse %s' % paren(base)
+            xs = SV(base, 'list:' + et, fvx)
+            accname = '%s_acc' % vname
+            env[accname] = self.bind(accname, SV('([] : %s)' % self.lty(V.ty), V.ty))
+        else:
+            xs = self.ev(rng, env)
+            if xs.agg or not (isinstance(xs.ty, str) and xs.ty.startswith('list:')):
+                raise TranslateError('for over a value of type %r' % (xs.ty,))
+            et = xs.ty[5:]
+        if zipped:
+            if pat[0] != 'ptuple' or len(pat[1]) != 2 or any(q[0] != 'pvar' for q in pat[1]):
+                raise TranslateError('pattern in a for over a zip')
+            patnames = [pat[1][0][1], pat[1][1][1]]
+        else:
+            if pat[0] != 'pvar':
+                raise TranslateError('pattern in a for over a vector')
+            patnames = [pat[1]]
         self.nloops += 1
         k = self.nloops
         lvars = []
         self.assigned_names(body, lvars)
-        lvars = [n for n in env if n in lvars and not isinstance(env[n], tuple)]
+        lvars = [n for n in env if n in lvars and n not in patnames and not isinstance(env[n], tuple)]
+        if accname is not None and accname not in lvars:
+            lvars.append(accname)
         caps_all = [n for n in env if n not in lvars and not isinstance(env[n], tuple) and not env[n].agg]
         names = lvars + caps_all
         lname = '%s.for%d' % (self.name, k)
         bem, benv, bmap = self.sub_emitter('.for%d_body' % k, names, env)
-        esv = bem.param_sv(pat[1], et)
-        benv[pat[1]] = esv
-        ev_ = list(esv.fv)[0]
+        if zipped:
+            esv = bem.param_sv('e', et)
+            ev_ = list(esv.fv)[0]
+            benv[patnames[0]] = bem.bind(patnames[0], SV('%s.1' % ev_, zipped[0], [ev_]))
+            benv[patnames[1]] = bem.bind(patnames[1], SV('%s.2' % ev_, zipped[1], [ev_]))
+        else:
+            esv = bem.param_sv(pat[1], et)
+            benv[pat[1]] = esv
+            ev_ = list(esv.fv)[0]
         bem.block(body, benv, None)
+        if accname is not None:
+            cur, xe = benv[accname], benv[patnames[0]]
+            benv[accname] = bem.bind(accname, SV('%s ++ [%s]' % (paren(cur.e), xe.e), cur.ty, cur.fv | xe.fv))
         if bem.fuelvar is not None:
             raise TranslateError('while loop inside a for over a vector')
         if len(lvars) > 1:
@@ -1856,14 +2119,18 @@ class FnEmitter:
         cs = ['c%d' % i for i in range(len(caps))]
         capdecl = ' '.join('(%s : %s)' % (c, t) for c, t in zip(cs, ct))
         binder = self.tybinder(ct + lt + [elt])
+        og = ''
+        if self.generic_f:
+            binder = '{F : Type} (O : %s F) ' % self.mod.fops_record + binder
+            og = 'O '
         tup = '(' + ', '.join(vs) + ')' if len(vs) > 1 else (vs[0] if vs else '()')
         def proj(r, i):
             if len(vs) == 1:
                 return r
             return '%s%s%s' % (r, '.2' * i, '.1' if i < len(vs) - 1 else '')
-        args_exc = ' '.join(['e'] + vs + cs)
+        args_exc = og + ' '.join(['e'] + vs + cs)
         rec = ' '.join(proj('r', i) for i in range(len(vs)))
-        csp = ' '.join(cs) + (' ' if cs else '')
+        csp = og + ' '.join(cs) + (' ' if cs else '')
         arrow = ' → '.join(['List ' + paren(elt)] + lt)
         pats0 = ', '.join(['[]'] + vs)
         pats1 = ', '.join(['e :: rest'] + vs)
@@ -1892,7 +2159,9 @@ class FnEmitter:
             sv = env[n]
             return paren(sv.e if sv.ty != 'bool' else 'decide (%s)' % sv.e)
         fv = frozenset(xs.fv).union(*[env[n].fv for n in keep]) if keep else frozenset(xs.fv)
-        callargs = ' '.join([arg(n) for n in caps] + [paren(xs.e)] + [arg(n) for n in lvars])
+        callargs = og + ' '.join([arg(n) for n in caps] + [paren(xs.e)] + [arg(n) for n in lvars])
+        if self.generic_f:
+            fv = fv | {'O'}
         self.ok('%s_ok %s = true' % (lname, callargs), fv)
         if not lvars:
             return
@@ -1907,6 +2176,17 @@ class FnEmitter:
             ty = env[n].ty
             pe = proj(tmp, i)
             env[n] = self.bind(n, SV('%s = true' % pe, 'bool', [tmp]) if ty == 'bool' else SV(pe, ty, [tmp]))
+        if accname is not None:
+            vname, rev, zp = itermut
+            acc, V = env[accname], env[vname]
+            if rev:
+                nv = 'List.reverse %s' % paren(acc.e)
+            elif zp is not None:
+                nv = '%s ++ List.drop (List.length %s) %s' % (paren(acc.e), paren(acc.e), paren(V.e))
+            else:
+                nv = acc.e
+            env[vname] = self.bind(vname, SV(nv, V.ty, acc.fv | V.fv))
+            del env[accname]
 
     def whilestmt(self, cond, body, env):
         if self.generic_f:
@@ -2133,6 +2413,7 @@ class FnEmitter:
             ptys.append(t)
             env[pn] = self.param_sv(pn if pn != 'self' else 'self_', t)
         rty = self.norm_ty(self.ret) if self.ret is not None else ('agg', [])
+        self.outnames = [prm[0] for prm in self.params if len(prm) > 2]
         res = self.block(self.body, env, rty)
         outs = [prm[0] for prm in self.params if len(prm) > 2]
         if self.ret is None and outs:
@@ -2146,7 +2427,7 @@ class FnEmitter:
 
     def render(self):
         out = []
-        opar = '{F : Type} (O : FOps F) ' if self.generic_f else ''
+        opar = ('{F : Type} (O : %s F) ' % self.mod.fops_record) if self.generic_f else ''
         oarg = 'O ' if self.generic_f else ''
         def ptype(v):
             return self.vartype[v]
@@ -2158,12 +2439,12 @@ class FnEmitter:
             (v, args, lt, ex) = st
             ps = ' '.join('(%s : %s)' % (a, ptype(a)) for a in args)
             tb = self.tybinder([ptype(a) for a in args] + [lt])
-            out.append('def %s.s_%s %s%s%s : %s :=\n  %s' % (self.name, v, opar if 'O.' in ex else '', tb, ps, lt, ex))
+            out.append('def %s.s_%s %s%s%s : %s :=\n  %s' % (self.name, v, opar if ('O.' in ex or ' O ' in ex) else '', tb, ps, lt, ex))
         def letchain():
             ls = []
             for (v, args) in self.lets:
                 st = [s for s in self.steps if s[0] == v][0]
-                useO = oarg if 'O.' in st[3] else ''
+                useO = oarg if ('O.' in st[3] or ' O ' in st[3]) else ''
                 ls.append('  let %s := %s.s_%s %s%s' % (v, self.name, v, useO, ' '.join(args)))
             return ls
         ps = ' '.join('(%s : %s)' % (a, ptype(a)) for a in self.pvars)
@@ -2191,9 +2472,9 @@ class FnEmitter:
                 conds.append('decide (%s)' % c)
             else:
                 conds.append('decide (%s → %s)' % (g, paren(c)))
-        if not self.generic_f:
+        if not self.generic_f or self.mod.generic_ok:
             body = ' &&\n    '.join(conds) if conds else 'true'
-            out.append('def %s_ok %s : Bool :=\n%s' % (self.name, ps, '\n'.join(letchain() + ['  ' + body])))
+            out.append('def %s_ok %s%s : Bool :=\n%s' % (self.name, opar, ps, '\n'.join(letchain() + ['  ' + body])))
         return '\n\n'.join(out)
 
 CMP = ('==', '!=', '<', '>', '<=', '>=')
@@ -2248,6 +2529,10 @@ class ModuleCtx:
         # object-typed receivers (integer logic of structs): item tables searched for struct definitions
         # and accessor signatures, names of the registered object / struct / enum types
         self.sources = [self.items]
+        self.outs = {}                  # function name -> indices of its `&mut` (out) parameters
+        self.ftypes = set()             # further names of the field type (generic parameters `E`, `B`)
+        self.fops_record = 'FOps'       # operations record of field-generic functions
+        self.generic_ok = False         # field-generic functions with `_ok` (index bounds, assertions) and loops
         self.objtypes = set()
         self.structs = set()
         self.enums = set()
@@ -2380,6 +2665,7 @@ class ModuleCtx:
             raise TranslateError('%s :: %s: internal %s: %s' % (self.path, key, type(ex).__name__, ex))
         if em.objfns:
             return em           # takes function parameters: not callable from other translated items
+        self.outs[key.split('::')[-1]] = [i for i, prm in enumerate(params) if len(prm) > 2]
         self.sigs[key] = (leanname, em.ptys, em.rty)
         self.sigs[key.split('::')[-1]] = (leanname, em.ptys, em.rty) if key.split('::')[-1] not in self.sigs else self.sigs[key.split('::')[-1]]
         return em
@@ -2396,8 +2682,14 @@ def desugar_for_return(blk, ret):
     out = []
     k = 0
     for st in blk[1]:
+        if st[0] == 'for' and st[3][0] == 'block' and st[3][2] is not None and st[3][2][0] == 'if':
+            st = ('for', st[1], st[2], ('block', st[3][1] + [('expr', st[3][2])], None))
         if st[0] == 'for' and st[3][0] == 'block' and any(is_ret_if(x) for x in st[3][1]):
-            if not (isinstance(ret, str) and ret in INT_TYPES):
+            if isinstance(ret, tuple) and ret[0] == 'vec':
+                init = ('call', ['Vec', 'new'], [])
+            elif isinstance(ret, str) and ret in INT_TYPES:
+                init = ('int', 0, None)
+            else:
                 raise TranslateError('return inside a for loop of a function returning %r' % (ret,))
             k += 1
             d, r = 'ret_done' + ('' if k == 1 else str(k)), 'ret_val' + ('' if k == 1 else str(k))
@@ -2412,7 +2704,7 @@ def desugar_for_return(blk, ret):
             new_el = ('block', post, body[2])
             guarded = ('expr', ('if', ('un', '!', ('path', [d])),
                                 ('block', pre + [('expr', ('if', ifst[1][1], new_th, new_el))], None), None))
-            out += [('let', ('pvar', d), 'bool', ('bool', False)), ('let', ('pvar', r), ret, ('int', 0, None)),
+            out += [('let', ('pvar', d), 'bool', ('bool', False)), ('let', ('pvar', r), ret, init),
                     ('for', st[1], st[2], ('block', [guarded], None)),
                     ('expr', ('if', ('path', [d]), ('block', [], ('return', ('path', [r]))), None))]
         else:
@@ -2551,4 +2843,15 @@ def ctz : Nat → Nat → Nat
 def revBits : Nat → Nat → Nat
   | 0, _ => 0
   | w + 1, x => (x % 2) * 2 ^ w + revBits w (x / 2)
+'''
+
+# operations record of the field-generic modules with loops (Gen/FieldOps.lean): the arithmetic record of the
+# extension formulas extended by what the polynomial / divisor / FRI code uses
+FIELDOPS = '''/-- the field operations of the generic polynomial, divisor and FRI code (`E: FieldElement`): `FOps` and
+    `inv()`, `/`, `==`, `exp(n)` -/
+structure FOpsX (F : Type) extends FOps F where
+  inv : F → F
+  div : F → F → F
+  beq : F → F → Bool
+  pow : F → Nat → F
 '''
